@@ -54,14 +54,15 @@ pub fn minimise(trace: &Trace, test: &mut dyn FnMut(&Trace) -> bool, budget: usi
     }
 
     // 2. configuration simplification (one field at a time, relative to the current best)
-    for field in 0..5 {
+    for field in 0..6 {
         let mut c = best.config.clone();
         match field {
             0 => c.mode = HashMode::Good,
             1 => c.salt = 0,
             2 => c.ctor = Ctor::WithHasher,
             3 => c.prefill = 0,
-            _ => c.prefill /= 8,
+            4 => c.prefill /= 8,
+            _ => c.marathon = 0,
         }
         if c == best.config {
             continue;
@@ -137,12 +138,20 @@ fn simpler_ops(op: &Op) -> Vec<Op> {
         OpKind::Peek { k, owned: true } => push(OpKind::Peek { k: *k, owned: false }),
         OpKind::Remove { k, owned: true } => push(OpKind::Remove { k: *k, owned: false }),
         OpKind::Mutate { k, owned: true, vh, panic } => push(OpKind::Mutate { k: *k, owned: false, vh: *vh, panic: *panic }),
-        OpKind::IterScript { kind, script, end } if !script.is_empty() => {
-            let mut s = script.clone();
-            s.pop();
-            push(OpKind::IterScript { kind: *kind, script: s, end: *end });
+        OpKind::IterScript { kind, script, end, skips } if !script.is_empty() => {
+            let mut sc = script.clone();
+            sc.pop();
+            let mut sk = skips.clone();
+            sk.truncate(sc.len());
+            push(OpKind::IterScript { kind: *kind, script: sc, end: *end, skips: sk });
             if script.iter().any(|b| !*b) {
-                push(OpKind::IterScript { kind: *kind, script: vec![true; script.len()], end: *end });
+                push(OpKind::IterScript { kind: *kind, script: vec![true; script.len()], end: *end, skips: skips.clone() });
+            }
+            if !skips.is_empty() {
+                push(OpKind::IterScript { kind: *kind, script: script.clone(), end: *end, skips: vec![] });
+            }
+            if !matches!(end, EndMode::Drop | EndMode::Forget) {
+                push(OpKind::IterScript { kind: *kind, script: script.clone(), end: EndMode::Drop, skips: skips.clone() });
             }
         }
         OpKind::Retain { keep, panic_at } if !keep.is_empty() => {
